@@ -657,9 +657,10 @@ func (s *Scanner) scanEscape(quote rune) bool {
 	return true
 }
 
-func (s *Scanner) scanRune() string {
+// quoteWidth: see scanString ('‘' is three bytes wide).
+func (s *Scanner) scanRune(quoteWidth int) string {
 	// '\'' opening already consumed
-	offs := s.offset - 1
+	offs := s.offset - quoteWidth
 
 	valid := true
 	n := 0
@@ -690,12 +691,17 @@ func (s *Scanner) scanRune() string {
 		s.error(offs, "illegal rune literal")
 	}
 
+	if quoteWidth > 1 {
+		return `'` + string(s.src[offs+quoteWidth:s.offset])
+	}
 	return string(s.src[offs:s.offset])
 }
 
-func (s *Scanner) scanString() string {
+// quoteWidth is the number of bytes of the opening quote: 1 for '"',
+// 3 for the full-width '“' (which the literal's text replaces by '"').
+func (s *Scanner) scanString(quoteWidth int) string {
 	// '"' opening already consumed
-	offs := s.offset - 1
+	offs := s.offset - quoteWidth
 
 	for {
 		ch := s.ch
@@ -712,6 +718,9 @@ func (s *Scanner) scanString() string {
 		}
 	}
 
+	if quoteWidth > 1 {
+		return `"` + string(s.src[offs+quoteWidth:s.offset])
+	}
 	return string(s.src[offs:s.offset])
 }
 
@@ -956,11 +965,11 @@ scanAgain:
 		case '"', '“':
 			insertSemi = true
 			tok = token.STRING
-			lit = s.scanString()
+			lit = s.scanString(utf8.RuneLen(ch))
 		case '\'', '‘':
 			insertSemi = true
 			tok = token.CHAR
-			lit = s.scanRune()
+			lit = s.scanRune(utf8.RuneLen(ch))
 		case '`':
 			insertSemi = true
 			tok = token.STRING
